@@ -54,6 +54,7 @@ type Contract struct {
 }
 
 type Lemma struct {
+	ModeBV   bool
 	Name     string
 	Pkg      *packages.Package
 	Props    []string
@@ -474,6 +475,9 @@ func (e *Engine) parseContractFile(p *packages.Package, f *ast.File, fname strin
 		case "mode":
 			if cur != nil && rest == "bv" {
 				cur.ModeBV = true
+			}
+			if curLemma != nil && rest == "bv" {
+				curLemma.ModeBV = true
 			}
 		case "ghost":
 			if cur != nil {
